@@ -192,6 +192,16 @@ def make_filter_classes():
             if w.scn.get('lineage'):
                 self.emitter = w.make_emitter(self.config.id)
 
+        def init(self, config):
+            super().init(config)
+            # a subclass doing more work after the communication has been set up (point 'init-late' of the C08 matrix)
+            w = world()
+            self.vid = config.id
+            spec = w.spec_by_id[self.vid]
+            self.vbeh = spec.get('beh') or {}
+            self.vinc = w.incarnation[self.vid]
+            self._inject('init-late')
+
         def _log(self, ev, **kw):
             w = world()
             w.clog.append({'t': w.sim.now, 'node': self.vid, 'inc': self.vinc, 'ev': ev, 'li': len(w.sim.log), **kw})
